@@ -258,13 +258,13 @@ class Model:
 
     def register(self, loc: str, path: str, typ: str) -> Fact:
         pre = self.cur.get((loc, path))
-        main_dup = pre is not None and pre.state == "V"
+        main_dup = pre is not None  # VALID, or UNKNOWN (the code may have kept it valid): a second object is possible
         main = self.register_one(loc, path, typ)
         cur_loc, p = loc, path
         while (q := inner_of(cur_loc, p)) is not None:
             cur_loc, p = LOCDEFS[cur_loc]["wraps"], q
             pre = self.cur.get((cur_loc, p))
-            inner_dup = pre is not None and pre.state == "V"
+            inner_dup = pre is not None  # VALID, or UNKNOWN (the code may have kept it valid): a second object is possible
             inner = self.register_one(cur_loc, p, typ)
             self.relate(main, inner, main_dup, inner_dup)
             self.events["inner-registered"] += 1
@@ -470,7 +470,7 @@ class Interp:
 
     def do_register(self, lk: str, path: str, typ: str, relmode: int = 0):
         pre = self.model.cur.get((lk, path))
-        dangling = pre is not None and pre.state == "V"
+        dangling = pre is not None  # VALID, or UNKNOWN (the code may have kept it valid): a second object is possible
         relpath = [None, posixpath.basename(path) or None, path][relmode % 3]
         self.log.append(f"register_path({lk},{path},{typ})")
         obj = self.dm.register_path(self.locs[lk], path, relpath, self.DataType[typ])
